@@ -6,6 +6,7 @@ mod c09;
 mod c05;
 mod c16;
 mod c01;
+mod c18;
 
 use util::Out;
 
@@ -25,6 +26,7 @@ fn main() {
         "C05" => c05::run(&mut out),
         "C16" => c16::run(&mut out),
         "C01" => c01::run(&mut out),
+        "C18" => c18::run(&mut out),
         _ => {
             eprintln!("unknown property {prop}");
             std::process::exit(2);
